@@ -19,7 +19,12 @@ PostText(i, ref, p) ==
                            (IF p = 2 /\ (\E j \in 1..Len(ref.items) : ref.items[j] = 3)
                             THEN <<123,39,105,110,100,101,120,39,58,32,39,119,105,110,39,125>> ELSE <<123,125>>)]
       [] OTHER -> [pre |-> <<123>>, suf |-> <<125>>]
-FinText(i) == [pre |-> <<65, 40>>, sep |-> <<32, 44, 32>>, suf |-> <<41>>]
+\* finalizer 1: concat "A(" , ")" ; finalizer 2: a template finalizer INSIDE a nested finalizer that prints variable k1 of
+\* the pipeline it runs in ("k1=<value> :: " q1 " ; " q2 ...; nothing for the value where the variable is not defined)
+HasVar(vars, k) == \E j \in 1..Len(vars) : vars[j][1] = k
+FinText(i, ref) == IF i = 2 THEN [pre |-> <<107,49,61>> \o (IF HasVar(ref.vars, 1) THEN Dec(VarVal(ref.vars, 1)) ELSE <<>>) \o <<32,58,58,32>>,
+                                  sep |-> <<32,59,32>>, suf |-> <<>>]
+                   ELSE [pre |-> <<65, 40>>, sep |-> <<32, 44, 32>>, suf |-> <<41>>]
 
 Clause(o) ==
     IF ~o.got.ok \/ ~o.ref.ok \/ ~o.raw.ok THEN
@@ -28,7 +33,7 @@ Clause(o) ==
              staged == [p \in 1..Len(o.raw.out) |->
                           Staged([j \in 1..Len(ref.post) |-> PostText(ref.post[j], ref, p)],
                                  \* (convert_rule() yields the queries of one rule: output finalizers do not run)
-                                 IF o.case.op \in {"backend_switch", "backend_switch_back"} THEN <<>> ELSE [j \in 1..Len(ref.fin) |-> FinText(ref.fin[j])], o.raw.out[p])]
+                                 IF o.case.op \in {"backend_switch", "backend_switch_back"} THEN <<>> ELSE [j \in 1..Len(ref.fin) |-> FinText(ref.fin[j], ref)], o.raw.out[p])]
          IN
          IF \E p \in 1..Len(o.ref.out) : o.ref.out[p] # staged[p].qs THEN "StageOrder"
          ELSE IF o.got.out # o.ref.out THEN
